@@ -537,6 +537,54 @@ fn fiemap_request(src: &Src) -> R<String> {
     Err("impl FiemapReq::new not found".into())
 }
 
+/// paths::ignore_filter: what it hands to the matcher — `gi.matched(<path>, <is_dir>)` — and the entries it lets through
+/// without asking (the `if entry.depth() == 0 { return true; }` guard)
+fn ignore_filter_query(root: &Path) -> R<String> {
+    let src = load(root, "libxcp/src/paths.rs")?;
+    let (_, block) = find_fn(&src, "ignore_filter")?;
+    struct V { calls: Vec<(String, String)>, guards: Vec<String> }
+    impl<'ast> Visit<'ast> for V {
+        fn visit_expr_method_call(&mut self, c: &'ast syn::ExprMethodCall) {
+            if c.method == "matched" || c.method == "matched_path_or_any_parents" {
+                let a: Vec<String> = c.args.iter().map(|x| quote::ToTokens::to_token_stream(x).to_string().replace(' ', "")).collect();
+                self.calls.push((a.get(0).cloned().unwrap_or_default(), a.get(1).cloned().unwrap_or_default()));
+            }
+            syn::visit::visit_expr_method_call(self, c)
+        }
+        fn visit_expr_if(&mut self, i: &'ast syn::ExprIf) {
+            let body = quote::ToTokens::to_token_stream(&i.then_branch).to_string().replace(' ', "");
+            if body == "{returntrue;}" || body == "{returntrue}" {
+                self.guards.push(quote::ToTokens::to_token_stream(&i.cond).to_string().replace(' ', ""));
+            }
+            syn::visit::visit_expr_if(self, i)
+        }
+    }
+    let mut v = V { calls: vec![], guards: vec![] };
+    v.visit_block(block);
+    if v.calls.len() != 1 { return Err(format!("ignore_filter: {} matcher queries (one expected)", v.calls.len())); }
+    // local aliases: `let path = entry.path();` -> the query is about entry.path()
+    let mut pathx = v.calls[0].0.clone();
+    let mut dirx = v.calls[0].1.clone();
+    for st in &block.stmts { let _ = st; }
+    struct L { lets: Vec<(String, String)> }
+    impl<'ast> Visit<'ast> for L {
+        fn visit_local(&mut self, l: &'ast syn::Local) {
+            if let (Some(n), Some(init)) = (pat_ident(&l.pat), l.init.as_ref()) {
+                self.lets.push((n, quote::ToTokens::to_token_stream(&init.expr).to_string().replace(' ', "")));
+            }
+            syn::visit::visit_local(self, l)
+        }
+    }
+    let mut l = L { lets: vec![] };
+    l.visit_block(block);
+    for (n, e) in &l.lets {
+        if &pathx == n { pathx = e.clone(); }
+        dirx = dirx.replace(&format!("{}.", n), &format!("{}.", e));
+    }
+    Ok(format!("(* {}  ignore_filter: the query put to the matcher (path, is_dir), local names resolved; entries passed without asking *)\nDefinition x_ignore_filter_query : string * string := (\"{}\", \"{}\").\nDefinition x_ignore_filter_unasked : list string := [{}].\n",
+               src.path, pathx, dirx, v.guards.iter().map(|g| format!("\"{}\"", g)).collect::<Vec<_>>().join("; ")))
+}
+
 fn find_const(src: &Src, name: &str) -> Option<String> {
     struct V<'a> { name: &'a str, out: Option<String> }
     impl<'ast, 'a> Visit<'ast> for V<'a> {
@@ -2240,6 +2288,7 @@ fn main() {
     }
     emit("process-wide state", process_wide_state(root), &mut out);
     emit("pool job panic sites", pool_job_panic_sites(root), &mut out);
+    emit("ignore_filter query", ignore_filter_query(root), &mut out);
     match load(root, "libxcp/src/config.rs") {
         Ok(src) => emit("Config::num_workers", num_workers(&src), &mut out),
         Err(e) => emit("config.rs", Err(e), &mut out),
